@@ -423,8 +423,16 @@ class Tracer:
                 self.it = o["scandir"](path)
                 self.entries = sorted(self.it, key=lambda e: os.fsencode(e.name))
 
+                self.pos = 0
+
             def __iter__(self):
-                return iter(self.entries)
+                return self
+
+            def __next__(self):          # a real scandir object is its own iterator (os.walk relies on it)
+                if self.pos >= len(self.entries):
+                    raise StopIteration
+                self.pos += 1
+                return self.entries[self.pos - 1]
 
             def __enter__(self):
                 return self
@@ -451,7 +459,9 @@ class Tracer:
         posixpath.ismount = ismount
         uid = self.world.get("uid", 0)
         os.getuid = lambda: uid
-        tty = bool(self.world.get("tty", False))
+        wo = self.world.get("opts", {}) if isinstance(self.world.get("opts"), dict) else {}
+        # trash-empty without -i / -f asks exactly when stdin is a terminal: worlds say so with opts.ttyDefault
+        tty = bool(wo.get("interactive")) if wo.get("ttyDefault") else bool(self.world.get("tty", False))
         os.isatty = lambda fd: tty if fd == 0 else o["isatty"](fd)
         ints = list(self.world.get("randints", []))
         import random as _r
